@@ -113,6 +113,12 @@ class C10(props.Prop):
         if scen in ('faults', 'golden_slow') and rng.random() < 0.35:
             # cross-check command that may hang / spin / blow up as well
             spec['model_cc'] = fault_model(rng, toks)
+            if rng.random() < 0.3:
+                # a cross-check command much slower than the command under
+                # test (its own golden run exceeds the main command's limit)
+                spec['model_cc']['classes']['bug'] = {
+                    **spec['model_cc']['classes']['bug'],
+                    'beh': ['normal', rng.choice([2.0, 4.0, 11.0])]}
             if rng.random() < 0.4:
                 spec['opts'] += ['--timeout-cc', str(rng.choice([0.5, 1.0, 2.5]))]
             if rng.random() < 0.4:
@@ -251,6 +257,19 @@ class C10(props.Prop):
         if golden_cc_inv and golden_cc_inv[0].get('t_done') is not None:
             def_tcc = round((golden_cc_inv[0]['t_done'] - golden_cc_inv[0]['t0'] + 1) * 1.5, 2)
         want_tcc = cfg['timeout_cc'] if cfg['timeout_cc'] is not None else def_tcc
+        # the golden run of the cross-check command has the limit given for
+        # it, or none (its limit is derived from that very run)
+        for d in golden_cc_inv[:1]:
+            ta = d.get('timeout_arg')
+            if (cfg['timeout_cc'] is None and d.get('timed_out')) or (
+                    cfg['timeout_cc'] is not None and
+                    (ta is None or abs(ta - cfg['timeout_cc']) > 0.011)):
+                v.violate('wrong-time-limit',
+                          'C10:wrong-time-limit:cross-check-golden-run',
+                          f'the golden run of the cross-check command waited '
+                          f'with limit {ta}' + (' and was cut off' if d.get(
+                              'timed_out') else '') +
+                          f', expected {cfg["timeout_cc"]} (--timeout-cc)')
         for d in cands:
             if d['which'] == 'cc':
                 ta = d.get('timeout_arg')
